@@ -7,6 +7,7 @@ import argparse
 import importlib
 import json
 import os
+import re
 import subprocess
 import sys
 import time
@@ -417,6 +418,12 @@ def replay(prop_id, path):
     prop = importlib.import_module("props." + prop_id)
     rp = getattr(prop, "REPLAY", None)
     log(json.dumps({k: v.get(k) for k in ("source", "key", "what", "input", "observed", "expected")}, indent=1, default=str))
+    # violations of the shared bounded stand-ins are replayed by the task that found them
+    key = str(v.get("key") or "")
+    if key.startswith("independence:"):
+        rp = {"module": "independence", "task": "replay"}
+    elif re.match(r"(crash:)?C\d\d:", key):
+        rp = {"module": "stateful", "task": "replay"}
     if rp is None or v.get("input") is None:
         log("no concrete input recorded; obligation: %s" % (v.get("obligation", {}) or {}).get("obligation"))
         return 1
